@@ -101,8 +101,9 @@ def process_failures(pid, tier, seed, spaces, aggs):
                 desc = None
             else:
                 desc, path, exp, obs = f
-                bulk_seen[(sp.name, path)] = bulk_seen.get((sp.name, path), 0) + 1
-                if bulk_seen[(sp.name, path)] > 3:
+                bkey = (sp.name, _re.sub(r'\d+', 'N', path))
+                bulk_seen[bkey] = bulk_seen.get(bkey, 0) + 1
+                if bulk_seen[bkey] > 3:
                     continue
                 labels = [str(desc)]
                 choices = None
